@@ -45,6 +45,66 @@ fn g(dir: &Path, args: &[&str]) -> String {
 /// number of deterministic single-mutation scenarios (every tracked path x every mutation kind)
 pub const CORPUS: u64 = 8 * 13;
 
+/// worktree mutations applied to an intent-to-add entry (`git add -N ita`, then …)
+pub const ITA_KINDS: u64 = 9;
+
+/// deterministic intent-to-add scenarios: corpus numbers `CORPUS .. CORPUS + ITA_CORPUS` (every
+/// mutation kind x two configurations / index timestamps)
+pub const ITA_CORPUS: u64 = ITA_KINDS * 2;
+
+/// `git add -N ita` and then one worktree mutation of it; returns the description
+fn ita_entry(dir: &Path, kind: u64, with_inner: bool) -> &'static str {
+    write(dir, "ita", b"intent\n");
+    set_mtime(dir, "ita", T0);
+    g(dir, &["add", "-N", "ita"]);
+    match kind {
+        1 => {
+            let _ = std::fs::remove_file(dir.join("ita"));
+            "intent-to-add, then deleted"
+        }
+        2 => {
+            let _ = std::fs::remove_file(dir.join("ita"));
+            std::fs::create_dir_all(dir.join("ita")).unwrap();
+            if with_inner {
+                write(dir, "ita/inner", b"inner\n");
+            }
+            "intent-to-add, then replaced by a directory"
+        }
+        3 => {
+            let _ = std::fs::remove_file(dir.join("ita"));
+            std::os::unix::fs::symlink("f2.txt", dir.join("ita")).unwrap();
+            set_mtime(dir, "ita", T0);
+            "intent-to-add, then replaced by a symlink"
+        }
+        4 => {
+            write(dir, "ita", b"");
+            set_mtime(dir, "ita", T0);
+            "intent-to-add, then truncated to an empty file"
+        }
+        5 => {
+            chmod(dir, "ita", true);
+            set_mtime(dir, "ita", T0);
+            "intent-to-add, then made executable"
+        }
+        6 => {
+            write(dir, "ita", b"a different and longer content\n");
+            set_mtime(dir, "ita", T0 + 50);
+            "intent-to-add, then content and size changed"
+        }
+        7 => {
+            set_mtime(dir, "ita", T0 + 7);
+            "intent-to-add, then touched"
+        }
+        8 => {
+            let _ = std::fs::remove_file(dir.join("ita"));
+            std::fs::create_dir_all(dir.join("ita/sub")).unwrap();
+            write(dir, "ita/sub/deep", b"deep\n");
+            "intent-to-add, then replaced by a directory tree"
+        }
+        _ => "intent-to-add",
+    }
+}
+
 /// `corpus = Some(k)`: exactly one mutation (path k / 13, kind k % 13), configuration and index
 /// timestamp cycling with k; otherwise everything is drawn from the seed
 pub fn build(seed: u64, corpus: Option<u64>, scratch: &Scratch) -> Scenario {
@@ -107,7 +167,14 @@ pub fn build(seed: u64, corpus: Option<u64>, scratch: &Scratch) -> Scenario {
         }
     };
     let mut desc = Vec::new();
-    let nmut = if corpus.is_some() { 1 } else { r.usize(6) };
+    let ita_corpus = corpus.filter(|k| *k >= CORPUS).map(|k| k - CORPUS);
+    let nmut = if ita_corpus.is_some() {
+        0
+    } else if corpus.is_some() {
+        1
+    } else {
+        r.usize(6)
+    };
     let mut smudge: Option<&str> = None;
     for _ in 0..nmut {
         let p = match corpus {
@@ -205,12 +272,15 @@ pub fn build(seed: u64, corpus: Option<u64>, scratch: &Scratch) -> Scenario {
         what.insert(p.into(), m.to_string());
         desc.push(format!("{p}: {m}"));
     }
-    if corpus.is_none() && r.chance(1, 4) {
-        write(&dir, "ita", b"intent\n");
-        set_mtime(&dir, "ita", T0);
-        g(&dir, &["add", "-N", "ita"]);
-        what.insert("ita".into(), "intent-to-add".into());
-        desc.push("ita: intent-to-add".into());
+    let ita_kind = match ita_corpus {
+        Some(j) => Some((j % ITA_KINDS, j % 2 == 0)),
+        None if corpus.is_none() && r.chance(1, 3) => Some((if r.chance(1, 4) { 0 } else { r.below(ITA_KINDS) }, r.chance(1, 2))),
+        None => None,
+    };
+    if let Some((kind, with_inner)) = ita_kind {
+        let m = ita_entry(&dir, kind, with_inner);
+        what.insert("ita".into(), m.to_string());
+        desc.push(format!("ita: {m}"));
     }
 
     // untracked and ignored content
